@@ -576,3 +576,36 @@ package bfe_http2
 //@   ensures[an_added_regular_field_has_a_valid_name] len(mh.Fields) != old(len(mh.Fields)) ==> hasPrefix(hf.Name, ":") || okFieldName(hf.Name)
 //@   ensures[earlier_fields_are_untouched] forall k int :: 0 <= k && k < old(len(mh.Fields)) ==> mh.Fields[k].Value == old(mh.Fields[k].Value) && mh.Fields[k].Name == old(mh.Fields[k].Name)
 //@   ensures[accepted_fields_stay_clean] cleanFields(mh)
+
+// ---- C32: CONTINUATION sequencing (checkFrameOrder) ----
+// While a header block is open (a HEADERS / CONTINUATION frame without END_HEADERS was the last frame), the
+// only frame accepted next is a CONTINUATION on the same stream; a CONTINUATION is accepted in no other state.
+
+//@ spec fType(f Frame) FrameType := abstract
+//@ spec fStream(f Frame) uint32 := abstract
+//@ spec fFlags(f Frame) Flags := abstract
+
+//@ func (Frame).Header
+//@   trusted the header of a frame is a function of the frame value and reading it writes nothing
+//@   modifies nothing
+//@   ensures result0.Type == fType(recv) && result0.StreamID == fStream(recv) && result0.Flags == fFlags(recv)
+
+//@ func (*Framer).connError
+//@   props C32
+//@   requires fr != nil
+//@   frame New pure
+//@   modifies fr.errDetail
+//@   ensures result0 != nil
+
+//@ func (*Framer).checkFrameOrder
+//@   props C32
+//@   requires fr != nil && f != nil
+//@   frame Sprintf pure
+//@   modifies fr.lastFrame, fr.lastHeaderStream, fr.errDetail
+//@   let open := old(fr.lastHeaderStream)
+//@   ensures[an_open_header_block_admits_only_its_continuation] !fr.AllowIllegalReads && open != 0 && (fType(f) != FrameContinuation || fStream(f) != open) ==> result0 != nil
+//@   ensures[no_continuation_without_an_open_header_block] !fr.AllowIllegalReads && open == 0 && fType(f) == FrameContinuation ==> result0 != nil
+//@   ensures[everything_else_is_in_order] !fr.AllowIllegalReads && !(open != 0 && (fType(f) != FrameContinuation || fStream(f) != open)) && !(open == 0 && fType(f) == FrameContinuation) ==> result0 == nil
+//@   ensures[a_rejected_frame_leaves_the_block_state] result0 != nil ==> fr.lastHeaderStream == open
+//@   ensures[the_block_stays_open_until_end_headers] result0 == nil && !fr.AllowIllegalReads && (fType(f) == FrameHeaders || fType(f) == FrameContinuation) ==> (fr.lastHeaderStream == 0 || fr.lastHeaderStream == fStream(f))
+//@   ensures[other_frames_do_not_open_or_close_a_block] result0 == nil && fType(f) != FrameHeaders && fType(f) != FrameContinuation ==> fr.lastHeaderStream == open
